@@ -92,7 +92,7 @@ LazyOrder(el, o, hoist) ==
 OwnerTag(tag) ==
   CASE tag.k = "comp" -> IF tag.bound THEN tag.rv.id ELSE tag.name
     [] tag.k = "member" -> tag.rv.id
-    [] tag.k = "custom" -> tag.name
+    [] tag.k = "custom" -> IF tag.bound THEN tag.rv.id ELSE tag.name
     [] OTHER -> "?"
 
 (* all component elements of a tree, reached through eager or lazy children *)
